@@ -595,8 +595,8 @@ impl Machine {
         }
     }
 
-    /// `next()`; a yielded item is kept alive as guard `g`.  An iterator whose
-    /// `next` panicked is dropped.
+    /// `next()`; a yielded item is kept alive as guard `g`.  A panic of `next` is caught and the
+    /// iterator is kept (it is pulled again later).
     pub fn next(&mut self, h: u64, g: u64) -> Value {
         let raw = self.cell_raw.clone();
         // safety net of the harness: only read / write the value through an item that is, by its
@@ -633,8 +633,8 @@ impl Machine {
                 json!({"ev":"next","h":h,"k":k,"g":g,"out":"some","tag":tag,"aout":aout,"v":v,"b":self.probe()})
             }
             Ok(None) => json!({"ev":"next","h":h,"k":k,"g":0,"out":"none","tag":0,"aout":0,"v":0,"b":self.probe()}),
+            // the panic is caught and the SAME iterator stays in use
             Err(p) => {
-                self.iters.remove(&h);
                 json!({"ev":"next","h":h,"k":k,"g":0,"out":panic_kind(p),"tag":0,"aout":0,"v":0,"b":self.probe()})
             }
         }
